@@ -582,6 +582,9 @@ func mkNodeHeightBound(c *core.Ctx, ctor, mk *ssa.Function) {
 		if k, isK := r.IntConst(); isK && k <= 0 {
 			continue
 		}
+		if isLevels(r) {
+			continue // the number of levels itself (the loop ran out): the bound is attained, not exceeded
+		}
 		if !bounded[r.Key()] {
 			ok, why = false, "the height "+short(r)+" of a new node is not bounded by the list's number of levels (a counter from 0 incremented only while counter < list."+lvField+"): Put would index the insertion path out of range"
 		}
